@@ -39,6 +39,9 @@ def real_to_complex(z, axis=0):
     if np.iscomplexobj(z):
         raise ValueError("Input must be real-valued.")
 
+    if not z.dtype.isnative:
+        z = z.astype(z.dtype.newbyteorder("="))
+
     out_dtype = np.complex64 if z.dtype == np.float32 else np.complex128
     N = z.shape[axis]
 
